@@ -153,7 +153,7 @@ Lemma frame_body_spec f mb : frame_valid f -> frame_clean f = true ->
   = Some (body_bytes (f_Header f) (f_Body f) mb).
 Proof.
   intros Hf Hcl Hmb. destruct f as [h b]. cbn [f_Header f_Body] in *. unfold frame_clean in Hcl. cbn [f_Header f_Body] in Hcl.
-  destruct Hf as (Hv & Hfl & Hsid & Hresp & Hop & (Ht & Hp & Hw & Hm)). cbn [f_Header f_Body] in *.
+  destruct Hf as (Hv & Hfl & Hsid & Hresp & Hop & Hdse & (Ht & Hp & Hw & Hm)). cbn [f_Header f_Body] in *.
   pose proof (body_bytes_spec _ _ _ Hv Hm Hcl Hmb) as Hbody. unfold spec_body_bytes in Hbody.
   destruct (spec_body (h_Version h) (bd_Message b)) as [l|] eqn:El; [|discriminate]. cbn [obind] in Hbody. assert (El' : ser_all l = mb) by congruence.
   assert (E4 : 4 <= h_Version h -> spec_from_v4 (h_Version h) = true).
